@@ -374,7 +374,7 @@ def rt_compact(vm):
 # ------------------------------------------------------------------------------------------------ runner interface
 def jobs(tier):
     out = []
-    nmax = 6 if tier == 'quick' else 8
+    nmax = 6 if tier == 'quick' else 7        # 8 bytes: the four jobs alone exceed the 40-minute budget
     for n in range(0, nmax + 1):
         firsts = [None] if n < 5 else ['i', 'l', 'd', 'other']
         for first in firsts:
